@@ -4,7 +4,6 @@ From PV Require Import Lib.ListX Model.Value Model.Pratt Model.SqlGrammar Model.
                        Model.SqlPrint Model.SqlCompat Model.SqlSem Model.EvalDoc.
 Import ListNotations.
 
-(* everything the check wants to know about one expression, computed with sharing *)
 Definition probe_dialect (dialect : str) (r : rexpr) :=
   let p := option_map (fun n : node => (fst (fst n), snd (fst n))) (translate dialect (rsize r) r) in
   (option_map render_top p,
@@ -14,3 +13,23 @@ Definition probe_dialect (dialect : str) (r : rexpr) :=
 Definition probe (e : pexpr) (envs : list (list val)) :=
   let r := normalize (resolve e) in
   ([probe_dialect d_sqlite r; probe_dialect d_generic r], corner e, map (fun env => ship (eval_doc env e)) envs).
+
+(* `derive d = e1 | select {v = e2}`: both expressions are resolved (and folded) on their own; the SQL
+   generator then inlines the definition of column d (index 3) where it is referenced.  Only for
+   definitions that resolve to a numeric literal or to an operator node (a null / boolean literal behind
+   a column reference is NOT seen by the syntactic null test and by CASE's trailing-true rule). *)
+Fixpoint rsubst (i : nat) (by_ : rexpr) (r : rexpr) : rexpr :=
+  match r with
+  | RCol j => if Nat.eqb i j then by_ else r
+  | RLit _ => r
+  | ROp n args => ROp n (map (rsubst i by_) args)
+  | RCase cs => RCase (map (fun cv => (rsubst i by_ (fst cv), rsubst i by_ (snd cv))) cs)
+  end.
+Definition inlinable (r : rexpr) : bool :=
+  match r with RLit (LInt _) | RLit (LFloat _ _) | ROp _ _ => true | _ => false end.
+Definition probe_let (e1 e2 : pexpr) (envs : list (list val)) :=
+  let r1 := normalize (resolve e1) in
+  let r := rsubst 3 r1 (normalize (resolve e2)) in
+  (if inlinable r1 then [probe_dialect d_sqlite r; probe_dialect d_generic r] else [],
+   corner e1 || corner e2,
+   map (fun env => ship (match eval_doc env e1 with Some v => eval_doc (firstn 3 (env ++ [VNull; VNull; VNull]) ++ [v]) e2 | None => None end)) envs).
